@@ -38,7 +38,52 @@ var c03Timings = []world.SubPlan{
 	{Inst: true},
 }
 
+// concretePartner: a cycle whose entry component a post-processor replaces, after initialisation, by a wrapper
+// of ANOTHER type, while the cycle partner holds the entry component through a field of its concrete pointer
+// type (which the wrapper does not fit): the partner holds the raw early version - a start that succeeds with
+// the wrapper published has handed out two versions.
+func (p c03) concretePartner(c *core.Ctx) {
+	g := world.NewG(c.Rng)
+	t := []int{0, 1, 3}[c.Rng.Intn(3)]
+	a := g.AddNode(t, "a-entry")
+	b := g.AddNode([]int{0, 1, 3, 2}[c.Rng.Intn(4)], "b-partner")
+	g.EdgeByName(a, b, "", "iface")
+	slot := fmt.Sprintf("P%02d", t)
+	g.SetTag(b, slot, "wire", []string{"a-entry", ""}[c.Rng.Intn(2)])
+	if c.Rng.Intn(2) == 0 {
+		h := g.AddNode([]int{2, 13}[c.Rng.Intn(2)], "c-other")
+		g.SetTag(h, "IA0", "wire", "a-entry") // an interface-typed holder outside the cycle: it gets the wrapper
+	}
+	g.ShuffleOrders()
+	plan := map[string]world.SubPlan{"a-entry": []world.SubPlan{{After: true}, {Before: true}}[c.Rng.Intn(2)]}
+	r := world.Start(g.Sc, world.Options{Extra: []any{world.NewSubstituter(plan)}})
+	c.Count("starts", 1)
+	c.Count("concrete_partner_starts", 1)
+	detail := failDetail(g.Sc, r, map[string]any{"plan": plan})
+	if abnormal(r.Outcome()) {
+		c.Fail("", "cycle whose partner holds the wrapped entry through a concrete pointer field: "+core.Short(r.OutcomeDetail(), 300), detail)
+		return
+	}
+	if r.Outcome() != "ok" {
+		c.Nontrivial("concretepartner-refused|" + g.Sc.GraphSig())
+		return // refused: the only consistent answer
+	}
+	var final any
+	var err error
+	r.Guard(func() { final, err = r.App.GetComponentByName("a-entry") })
+	refs, _ := r.SlotRefs(r.Nodes[b], slot)
+	if err == nil && len(refs) == 1 && !refs[0].Nil && refs[0].Obj != final {
+		c.Fail("", fmt.Sprintf("stale version after a successful start: b-partner.%s holds %s of \"a-entry\" but the container publishes %s", slot, verOf(refs[0].Obj), verOf(final)), detail)
+		return
+	}
+	c.Nontrivial("concretepartner-ok|" + g.Sc.GraphSig())
+}
+
 func (p c03) Run(c *core.Ctx) {
+	if c.Index%11 == 7 {
+		p.concretePartner(c)
+		return
+	}
 	// two families: wrappers of another type (interface-typed slots only) and same-type decorated copies
 	// (pointer-typed slots allowed too)
 	sameType := c.Index%3 == 1
